@@ -397,6 +397,7 @@ def decomposition(facts, res):
     U = next(iter(us))
     n = decomp.check(facts, res, R, "TbfMortonSpaceIndex", U)
     res.floor(R, n, 1000, "ordered pairs of leaf cells")
+    res.instance(R, "model size", "rules/decomp.py", "%d ordered pairs of leaf cells examined" % n)
 
 
 def routing(facts, res, classes):
